@@ -4,8 +4,9 @@ CONSTANTS
   BatchSize = 2
   ValidateFirst = TRUE
   RootCheck = TRUE
+  ResetClearsBitmap = TRUE
   MaxAdds = 100000
   MaxBad = 100000
   MaxDup = 100000
 VIEW View
-INVARIANTS TypeOK NeverFinaliseWrongRoots OnlyGoodCached OnlyGoodApplied SameFinalState NoStall
+INVARIANTS TypeOK NeverFinaliseWrongRoots OnlyGoodCached OnlyGoodApplied SameFinalState NoStall GoodRetryHasRoots
